@@ -475,7 +475,9 @@ impl Session {
         let mut violations = 0u32;
         let mut known_lines = vec![];
         let mut regress_run = 0u64;
-        for (name, case) in &part.regressions {
+        // fixed regression cases run once: in shard 0 of a sharded run
+        let regressions: &[(&'static str, C)] = if self.args.shard.0 == 0 { &part.regressions } else { &[] };
+        for (name, case) in regressions {
             let mut o = run_one(&f, case);
             for _ in 1..part.replay_repeats.max(1) {
                 if o.is_violation() {
